@@ -41,7 +41,9 @@ EXPLANATION = (
     'R6 wherever msetup copies or opens a recovery-critical file by name (the backup before a wipe), its absence in a partial build '
     'directory is survivable: a FileNotFoundError handler encloses the call or an existence test of that very name dominates it; '
     'R7 a file that a configuration-time function reads back with pickle/json.load and itself rewrites in place under the same symbolic '
-    'name is read tolerantly (handler for what a torn file raises). '
+    'name is read tolerantly (handler for what a torn file raises); in R2b the presence test of cmd_line.txt must name the very file the '
+    'replay reads; R8 set_from_configure_command in msetup runs only behind a test that first_invocation is false (never on the fresh '
+    'CoreData of a recovery run). '
     'A violation is reported only where every call/condition of the judged region was classified; otherwise the verdict is Undecided. '
     'NOT decided: recoverability at each individual crash point; fsync/durability; torn *text* in cmd_line.txt (configparser.Error / '
     'literal_eval on a half-written line; unreachable once R1 holds); the order of publication between coredata.dat and cmd_line.txt (a '
@@ -737,12 +739,31 @@ def _ancestors(repo: Repo, bare: str) -> T.List[str]:
     return out
 
 
-def _handler_types(h: ast.ExceptHandler) -> T.List[str]:
+def _type_elements(t: ast.AST, mod: T.Optional[Module], scope_fn: T.Optional[ast.AST], depth: int = 0) -> T.List[ast.AST]:
+    """Exception classes named by a handler type expression: a class, a tuple display, `A + B`, or a constant tuple bound to a
+    module-level / local name (folded, family policy (a))."""
+    if isinstance(t, ast.Tuple):
+        return [x for e in t.elts for x in _type_elements(e, mod, scope_fn, depth)]
+    if isinstance(t, ast.BinOp) and isinstance(t.op, ast.Add):
+        return _type_elements(t.left, mod, scope_fn, depth) + _type_elements(t.right, mod, scope_fn, depth)
+    if isinstance(t, ast.Name) and depth < 4 and t.id not in EXC_PARENT and t.id not in ('BaseException', 'MesonException'):
+        val: T.Optional[ast.AST] = None
+        if scope_fn is not None:
+            defs = [n.value for n in walk_no_nested(scope_fn) if isinstance(n, ast.Assign) and any(isinstance(x, ast.Name) and x.id == t.id for x in n.targets)]
+            if len(defs) == 1:
+                val = defs[0]
+        if val is None and mod is not None and mod.has_assign(t.id):
+            val = mod.assign_value(t.id)
+        if val is not None and isinstance(val, (ast.Tuple, ast.BinOp, ast.Name)):
+            return _type_elements(val, mod, scope_fn, depth + 1)
+    return [t]
+
+
+def _handler_types(h: ast.ExceptHandler, mod: T.Optional[Module] = None, scope_fn: T.Optional[ast.AST] = None) -> T.List[str]:
     if h.type is None:
         return ['BaseException']
-    ts = h.type.elts if isinstance(h.type, ast.Tuple) else [h.type]
     out = []
-    for t in ts:
+    for t in _type_elements(h.type, mod, scope_fn):
         c = attr_chain(t)
         if c is None:
             raise Undecided(f'exception handler type `{short(t)}` is not a name')
@@ -750,11 +771,17 @@ def _handler_types(h: ast.ExceptHandler) -> T.List[str]:
     return out
 
 
-def _first_handler(repo: Repo, tr: ast.Try, exc: str) -> T.Optional[ast.ExceptHandler]:
+def _first_handler(repo: Repo, tr: ast.Try, exc: str, mod: T.Optional[Module] = None, scope_fn: T.Optional[ast.AST] = None) -> T.Optional[ast.ExceptHandler]:
     anc = _ancestors(repo, exc)
+    unread: T.List[str] = []
     for h in tr.handlers:
-        if any(t in anc for t in _handler_types(h)):
+        types = _handler_types(h, mod, scope_fn)
+        if any(t in anc for t in types):
             return h
+        unread += [t for t in types if not _known_exc(repo, t)]
+    if unread:
+        # closed world: a handler whose classes could not be read may well be the one that catches it
+        raise Undecided(f'handler type(s) {sorted(set(unread))} could not be resolved to exception classes')
     return None
 
 
@@ -899,7 +926,7 @@ def r2_pickle(ctx: RuleCtx) -> None:
                 tries, odd_with = _enclosing_tries(ref.mod, ref.node, call)
                 odd = odd or odd_with
                 for tr in tries:
-                    h2 = _first_handler(ctx.repo, tr, exc)
+                    h2 = _first_handler(ctx.repo, tr, exc, ref.mod, ref.node)
                     if h2 is not None:
                         handler = (ref, h2)
                         break
@@ -935,6 +962,50 @@ def _is_regenerate(ps: PathSym, ref: FuncRef, c: ast.Call) -> bool:
 def _is_replay(ps: PathSym, ref: FuncRef, c: ast.Call) -> bool:
     callee = ps.resolve_callee(ref, c)
     return callee is not None and callee.mod.rel == CMDLINE and callee.qn == 'read_cmd_line_file'
+
+
+def _opaque_leaves(ts: T.Iterable[Term]) -> T.FrozenSet[str]:
+    out: T.Set[str] = set()
+
+    def rec(t: Term) -> None:
+        if t[0] == 'opaque':
+            out.add(str(t[1]))
+        elif t[0] == 'join':
+            for x in t[1]:
+                rec(x)
+        elif t[0] == 'cat':
+            rec(t[1])
+            rec(t[2])
+    for t in ts:
+        rec(t)
+    return frozenset(out)
+
+
+def _differ_under_same_root(a: Terms, b: Terms) -> bool:
+    """Positive evidence that two folded name sets denote different files: for some set of opaque roots both sides have
+    names built on exactly those roots, and none coincides (flow-insensitive unions make other groups incomparable)."""
+    groups = {_opaque_leaves([t]) for t in a} & {_opaque_leaves([t]) for t in b}
+    for g in groups:
+        if not g:
+            continue
+        ga = {t for t in a if _opaque_leaves([t]) == g}
+        gb = {t for t in b if _opaque_leaves([t]) == g}
+        if ga and gb and not (ga & gb):
+            return True
+    return False
+
+
+def _replay_file(ps: PathSym, ref: FuncRef, call: ast.Call) -> Terms:
+    """The file name(s) that this call of read_cmd_line_file hands to the parser, with the call's arguments bound."""
+    callee = ps.resolve_callee(ref, call)
+    if callee is None:
+        return frozenset()
+    env = ps.bind_args(callee, call, ref, {}, 2, frozenset())
+    out: T.Set[Term] = set()
+    for s in _sinks(callee.node, _parser_locals(ps, callee.mod, callee.node)):
+        if s.kind == 'read' and s.path is not None and call_method(s.call) in ('read', 'read_file'):
+            out |= ps.resolve(callee, s.path, env)
+    return frozenset(out)
 
 
 def _recovery_events(ps: PathSym, ref: FuncRef, calls: T.List[ast.Call], depth: int = 2) -> T.Tuple[T.List[str], bool]:
@@ -984,18 +1055,20 @@ def r2_environment(ctx: RuleCtx) -> None:
     for ref, tr, call in found:
         qn = ref.qn
         for exc, what in (('FileNotFoundError', 'missing coredata.dat'), ('MesonException', 'unreadable coredata.dat')):
-            h = _first_handler(ctx.repo, tr, exc)
+            h = _first_handler(ctx.repo, tr, exc, mod, ref.node)
             if h is None:
                 outer, _ = _enclosing_tries(mod, ref.node, tr)
                 if outer:
                     raise Undecided(f'{qn}: {exc} from coredata.load is handled by an outer try; not followed')
                 ctx.violation(mod, qn, call, f'{exc} from coredata.load ({what}) is not handled: the build directory stays unusable', call)
                 continue
-            if exc == 'MesonException' and 'MesonException' not in _handler_types(h) and not set(_handler_types(h)) & {'Exception', 'BaseException'}:
+            if exc == 'MesonException' and 'MesonException' not in _handler_types(h, mod, ref.node) and not set(_handler_types(h, mod, ref.node)) & {'Exception', 'BaseException'}:
                 raise Undecided(f'handler chosen for MesonException is `{short(h.type)}`')
             paths = enumerate_paths(h.body, pure={'isfile', 'exists', 'get_cmd_line_file', 'join'})
             n_regen = 0
+            reported: T.Set[int] = set()
             for p in paths:
+                tested: T.Optional[T.Tuple[ast.AST, Terms]] = None
                 present: T.Optional[bool] = None
                 nconds = 0
                 for ev in p.events:
@@ -1012,7 +1085,18 @@ def r2_environment(ctx: RuleCtx) -> None:
                         if ts and all(P.basename(t) == 'cmd_line.txt' for t in ts):
                             present = ev.val
                             nconds -= 1
+                            tested = (node, ts)
                 events, understood = _recovery_events(ps, ref, p.calls())
+                # the file whose presence is tested must be the file the replay reads (same folded name)
+                if tested is not None and present:
+                    for c in p.calls():
+                        if _is_replay(ps, ref, c):
+                            rt = _replay_file(ps, ref, c)
+                            tt = tested[1]
+                            if _differ_under_same_root(rt, tt) and id(tested[0]) not in reported:
+                                reported.add(id(tested[0]))
+                                ctx.violation(mod, qn, tested[0], f'{what}: the presence test `{short(tested[0])}` looks at {P.show_all(tt)} but `{short(c)}` '
+                                              f'replays {P.show_all(rt)}: the test never sees the recorded command line, so recovery is always refused', tested[0])
                 end = _path_raise(ctx, ps, ref, p)
                 if end == 'unknown' and p.outcome == 'raise':
                     raise Undecided(f'{qn}: the {exc} handler path `{p.describe()}` raises something the rule does not understand')
@@ -1184,7 +1268,7 @@ def r2_cmdline(ctx: RuleCtx) -> None:
                     hn = cfg.nodes[b]
                     if lab == 'exc' and hn.kind == 'handler':
                         anc = _ancestors(ctx.repo, 'KeyError' if what == 'KeyError' else 'NoSectionError')
-                        if any(t in anc for t in _handler_types(hn.ast)):  # type: ignore[arg-type]
+                        if any(t in anc for t in _handler_types(hn.ast, mod, fn)):  # type: ignore[arg-type]
                             caught = True
                 if caught or _suppressed(mod, fn, n, _ancestors(ctx.repo, 'KeyError' if what == 'KeyError' else 'NoSectionError')):
                     continue
@@ -1886,7 +1970,7 @@ def _absence_guarded(ctx: RuleCtx, ps: PathSym, ref: FuncRef, cfg: CFG, call: as
     mod, fn = ref.mod, ref.node
     tries, _ = _enclosing_tries(mod, fn, call)
     for tr in tries:
-        if all(_first_handler(ctx.repo, tr, e) is not None for e in excs):
+        if all(_first_handler(ctx.repo, tr, e, mod, fn) is not None for e in excs):
             return True
     if all(_suppressed(mod, fn, call, _ancestors(ctx.repo, e)) for e in excs):
         return True
@@ -2019,6 +2103,68 @@ def r7_readback(ctx: RuleCtx) -> None:
         ctx.ok('no configuration-time function reads back with pickle/json a file it rewrites in place', nontrivial=False)
 
 
+# ---------------------------------------------------------------------------
+# R8
+
+def r8_loaded_only(ctx: RuleCtx) -> None:
+    """`set_from_configure_command` (the -D/-U semantics of a *re*configuration) is applied only to a coredata that was loaded:
+    a recovery run (coredata.dat missing/unreadable -> fresh CoreData, first_invocation) knows no project options yet, and
+    pushing the command line into it fails with "Unknown option" - the directory can then not be repaired by --reconfigure."""
+    mod = ctx.repo.module(MSETUP)
+    ps = PathSym(ctx.repo)
+    n = 0
+    for qn, fn in mod.funcs().items():
+        calls = [c for c in walk_no_nested(fn) if isinstance(c, ast.Call) and call_method(c) == 'set_from_configure_command']
+        if not calls:
+            continue
+        cfg = CFG(fn)
+        defs = ps.local_defs(fn)
+        unread: T.List[str] = []
+
+        def loaded(test: ast.AST, label: bool, seen: T.FrozenSet[str] = frozenset()) -> bool:
+            """test == label implies: not a first invocation."""
+            if isinstance(test, ast.UnaryOp) and isinstance(test.op, ast.Not):
+                return loaded(test.operand, not label, seen)
+            if isinstance(test, ast.BoolOp):
+                if (isinstance(test.op, ast.And) and label) or (isinstance(test.op, ast.Or) and not label):
+                    return any(loaded(v, label, seen) for v in test.values)
+                return False
+            if isinstance(test, ast.Name) and test.id not in seen:
+                d = defs.get(test.id, [])
+                if len(d) == 1 and d[0] is not None:
+                    return loaded(d[0], label, seen | {test.id})
+                return False
+            if isinstance(test, ast.Compare) and len(test.ops) == 1 and isinstance(test.comparators[0], ast.Constant) and isinstance(test.comparators[0].value, bool) \
+                    and isinstance(test.ops[0], (ast.Is, ast.Eq, ast.IsNot, ast.NotEq)):
+                same = isinstance(test.ops[0], (ast.Is, ast.Eq)) == test.comparators[0].value
+                return loaded(test.left, label if same else not label, seen)
+            c = attr_chain(test)
+            if c is not None and c.split('.')[-1] == 'first_invocation':
+                return label is False
+            if isinstance(test, ast.Call) and any(isinstance(x, ast.Name) and x.id in env_names for x in ast.walk(test)):
+                unread.append(short(test))
+            return False
+
+        for c in calls:
+            recv = attr_chain(c.func.value) if isinstance(c.func, ast.Attribute) else None
+            env_names = {recv.split('.')[0]} if recv else set()
+            at = cfg.node_containing(c)
+            if not at:
+                raise Undecided(f'{qn}: `{short(c)}` is not in the CFG')
+            n += 1
+            asserts = [m for m in cfg.nodes if m.kind == 'stmt' and isinstance(m.ast, ast.Assert) and loaded(m.ast.test, True)]
+            reach = cfg.reachable([cfg.entry], avoid=asserts, edge_ok=lambda a, b, lab: not (a.kind == 'test' and lab in (True, False) and loaded(a.ast.test, lab)))  # type: ignore[union-attr]
+            ok = not any(x.id in reach for x in at)
+            if not ok and unread:
+                raise Undecided(f'{qn}: `{short(c)}` is not behind a `first_invocation` test the rule can read, but {sorted(set(unread))[:3]} may be one')
+            ctx.require(ok, f'{qn}: `{short(c)}` runs only where `first_invocation` is known to be false (a loaded coredata)', mod, qn, c,
+                        f'`{short(c)}` can run on a first invocation: after a killed setup/wipe (coredata.dat missing or unreadable) `meson setup --reconfigure` builds a '
+                        f'fresh CoreData, and pushing the command line into it fails with "Unknown option" for every project option; only `not <env>.first_invocation` '
+                        f'may lead here', c)
+    if n == 0:
+        raise Undecided('msetup: no call of set_from_configure_command found (the reconfigure path is spelled in a way the rule does not follow)')
+
+
 RULES = [
     Rule('C09.R1', 'recovery-critical files are published atomically (temp + closed + os.replace), never opened in place', r1),
     Rule('C09.R2a', 'pickle_load converts truncated-pickle errors into MesonException', r2_pickle),
@@ -2030,4 +2176,5 @@ RULES = [
     Rule('C09.R5', 'the recorded command line is replayed into the Interpreter', r5_replay),
     Rule('C09.R6', 'copies/reads of recovery-critical files in msetup survive their absence', r6_backup),
     Rule('C09.R7', 'files read back by the function that rewrites them in place are read tolerantly', r7_readback),
+    Rule('C09.R8', 'the configure-command options are applied only to a loaded coredata', r8_loaded_only),
 ]
